@@ -43,29 +43,33 @@ theorem mapE_ok_inv {α β ε} (f : α → Except ε β) (l : List α) (r : List
 
 /-! ## the native 1-bit loop, with the translated guard and arithmetic (T20) -/
 
+/-! The three lemmas below are about *translated* definitions; they are proved by normalisation + `omega`
+    rather than by structural rewriting so that a harmless re-phrasing of the source (`!= 0` / `> 0`, `>= 1`)
+    does not break them, while a change of meaning does. -/
+
 theorem segPackGuard_binary (rows cols : Nat) :
     segPackGuard "BINARY" rows cols = .ok (decide ((rows * cols) % 8 ≠ 0)) := by
+  have e : ((rows : Int) * (cols : Int)) = ((rows * cols : Nat) : Int) := by push_cast; rfl
   unfold segPackGuard
-  rw [fmod_pos _ 8 (by omega)]
-  have e : ((rows : Int) * (cols : Int)) % 8 = (((rows * cols) % 8 : Nat) : Int) := by push_cast; rfl
-  by_cases h : (rows * cols) % 8 = 0
-  · have h2 : ((rows : Int) * (cols : Int)) % 8 = 0 := by rw [e]; exact_mod_cast h
-    simp [h, h2]
-  · have h2 : ((rows : Int) * (cols : Int)) % 8 ≠ 0 := by rw [e]; exact_mod_cast h
-    simp [h, h2]
+  rw [e]
+  generalize rows * cols = n
+  simp only [fmod_pos _ 8 (by omega), Except.ok.injEq]
+  rw [Bool.eq_iff_iff]
+  simp
+  all_goals omega
 
 theorem segCarryTake_nat (n : Nat) : segCarryTake (n : Int) = .ok ((8 * (n / 8) : Nat) : Int) := by
   unfold segCarryTake
-  rw [fdiv_pos _ 8 (by omega)]
-  push_cast; rfl
+  simp only [fdiv_pos _ 8 (by omega), Except.ok.injEq]
+  push_cast
+  omega
 
 theorem segFlushGuard_nat (n : Nat) : segFlushGuard (n : Int) = .ok (decide (n > 0)) := by
   unfold segFlushGuard
-  congr 1
-  by_cases h : n > 0
-  · simp [h]
-  · have : n = 0 := by omega
-    subst this; simp
+  simp only [Except.ok.injEq]
+  rw [Bool.eq_iff_iff]
+  simp
+  all_goals omega
 
 theorem nativeStep_eq (carry : Bool) (st : List Nat × List Bool) (f : List Bool) :
     nativeStep carry st f = .ok (loopStep carry st f) := by
